@@ -10,6 +10,10 @@ TRIVIAL_OUTPUTS = {"", "-", "u", "bad-op"}
 # streams whose generator emits cases that the Lean spec writer expands (driver op prefix)
 PREP = {"e2e.C01.roundtrip": "w.", "e2e.C07.corrupt": "w."}
 
+# ops whose implementation observation carries extra statistics after the first word (e.g. "same ok",
+# "same conferr"): only the first word is compared with the model's answer
+FIRST_WORD_FNS = {"c08.twin", "c08.known"}
+
 TRUSTED_BASE = [
     "Lean 4.33.0 kernel (thorough tier: leanchecker re-check of the compiled property modules)",
     "axioms per theorem as printed by #print axioms, restricted to propext / Classical.choice / Quot.sound (no sorry, no native_decide, no bv_decide, no added axiom)",
@@ -43,6 +47,19 @@ KNOWN_CLASSES = {
 }
 
 PROPS = {
+    "C08": {
+        "lean_modules": ["TableauVerif.Props.C08"],
+        "oracles": ["c08.twin", "c08.known"],
+        "streams": [
+            ("e2e.C08.twins", 240, 12000, 8),
+            ("corr.protogen.parseHeader", 3000, 100000),
+        ],
+        "assumptions": [
+            "the XLSX and CSV readers (excelize, encoding/csv) are trusted libraries; what they hand over differs by trailing blank cells/rows and by the text of number-typed cells, which is what the theorems are about",
+            "twin generation: the CSV twin is the rectangular export of the same cells; number-typed XLSX cells are written only for canonical integer texts (what Excel would export back unchanged)",
+            "partial: equality of whole runs is decided by the twin stream (real GenProto+GenConf on both containers), the theorems cover the blank-column / blank-cell / integer-text invariances of the modelled parsers",
+        ],
+    },
     "C17": {
         "lean_modules": ["TableauVerif.Props.C17"],
         "oracles": ["c17.cls", "c17.fuzz"],
